@@ -372,6 +372,12 @@ var ruleLabelPaths = &core.Rule{ID: "R12.10", Min: 5,
 				key2 := fmt.Sprintf("%s: empty answer of %s falls through to the plain sniffer", core.FName(sn), g.Name())
 				ev2 := newEval(c)
 				ev2.Env = fde.Env{call: constant.MakeString("")}
+				for _, lc := range core.Calls(sn) {
+					// a non-empty input (the plain sniffer's own answer for the empty one is the empty string)
+					if lcall, ok := lc.(*ssa.Call); ok && core.IsBuiltin(&lcall.Call, "len") && core.IsByteSlice(lcall.Call.Args[0].Type()) {
+						ev2.Env[lcall] = constant.MakeInt64(10)
+					}
+				}
 				exits2, err := ev2.Walk(call.Block(), prev, nil, 2)
 				if err != nil || len(exits2) == 0 {
 					s.Und(key2, c.Pos(call.Pos()), fmt.Sprintf("the sniffer does not evaluate with an empty answer pinned (%v)", err))
@@ -394,6 +400,8 @@ var ruleLabelPaths = &core.Rule{ID: "R12.10", Min: 5,
 					}
 					rc, isCall := rv.(*ssa.Call)
 					switch {
+					case isCall && rc == call:
+						okFall = false // the reader's own (empty) answer
 					case isCall && (rc.Call.StaticCallee() == cm.plain || rc.Call.StaticCallee() == body):
 					case isCall && rc.Call.StaticCallee() != nil && core.InMod(rc.Call.StaticCallee()):
 						undFall = true // another helper of the module: not followed
